@@ -189,6 +189,19 @@ def run(ck: Checker):
     p2 = path_avoiding(cfg, [cfg.entry], {mk[0].id}, avoid=store_obj)
     zero = all(isinstance(cfg.nodes[i].ast.value, ast.Constant) and cfg.nodes[i].ast.value.value == 0 for i in init)
     ok = p is None and p2 is None and zero
+    # ...and only if absent: the same server-side object can be wrapped again (a hosted method returning
+    # managed(x) twice) while earlier proxies still hold references; resetting the count would forget them
+    absent = {}
+    for n in cfg.nodes:
+        if n.kind == 'test' and isinstance(n.ast, ast.Compare) and len(n.ast.ops) == 1 and isinstance(n.ast.ops[0], (ast.NotIn, ast.In)) and dotted(n.ast.comparators[0]) == 'self.id_to_refcount':
+            absent[n.id] = 'T' if isinstance(n.ast.ops[0], ast.NotIn) else 'F'
+    for i in init:
+        if i == mk[0].id:
+            continue
+        pth = path_avoiding(cfg, [cfg.entry], {i}, edge_ok=lambda e: not (e.src in absent and e.kind == absent[e.src]))
+        if pth is not None:
+            ok = False
+            ck.ob('C13-4', f, cfg.nodes[i].ast, False, 'the reference count is (re)set to 0 even when an entry already exists: wrapping the same hosted object again forgets the references held by earlier proxies — dropping one proxy then destroys the object while another still refers to it')
     ck.ob('C13-4', f, mk[0].ast, ok, 'object and count entry (0) exist before the proxy constructor takes the first reference' if ok else 'the proxy can be constructed before the object / its count entry is registered (or the entry does not start at 0)')
     f = mod.func('managed')
     rets = [n for n in walk_shallow_func(f.node) if isinstance(n, ast.Return)]
